@@ -15,6 +15,8 @@
 #include <etl/type_traits.hpp>
 
 #include <cmath>
+#include <cstdint>
+#include <cstring>
 #include <limits>
 #include <map>
 #include <ratio>
@@ -35,7 +37,23 @@ void put(Out& o, V v)
     } else if constexpr (std::is_floating_point_v<U>) {
         long double x = static_cast<long double>(v);
         if (std::isnan(x)) {
-            o.tok("nan");
+            // quiet or signaling: the is_quiet bit (most significant fraction bit) of the value in its OWN format
+            // (the conversion to long double above quiets a signaling NaN); the sign and the payload are not compared
+            bool quiet = true;
+            if constexpr (sizeof(U) == 4) {
+                std::uint32_t b = 0;
+                std::memcpy(&b, &v, 4);
+                quiet = (b & 0x00400000U) != 0;
+            } else if constexpr (sizeof(U) == 8) {
+                std::uint64_t b = 0;
+                std::memcpy(&b, &v, 8);
+                quiet = (b & (1ULL << 51)) != 0;
+            } else {
+                std::uint64_t b = 0; // x87 extended: bit 63 is the explicit integer bit, bit 62 the quiet bit
+                std::memcpy(&b, &v, 8);
+                quiet = (b & (1ULL << 62)) != 0;
+            }
+            o.tok("nan").tok(quiet ? "q" : "s");
         } else if (std::isinf(x)) {
             o.tok(x > 0 ? "inf" : "-inf");
         } else if (x == 0) {
